@@ -118,7 +118,7 @@ impl Property for C08 {
         vec!["decoders (flate2, zstd, liblzma, bzip2) and RustCrypto hashes are trusted; they are called directly, not through the crate under test".into()]
     }
     fn required_labels(&self, _t: Tier) -> Vec<&'static str> {
-        vec!["above-threshold-gzip", "above-threshold-zstd", "above-threshold-xz", "above-threshold-bzip2", "with-ops", "comp-none"]
+        vec!["one-source-path-rewritten", "above-threshold-gzip", "above-threshold-zstd", "above-threshold-xz", "above-threshold-bzip2", "with-ops", "comp-none"]
     }
     fn phases(&self, tier: Tier) -> Vec<Phase<C08Case>> {
         vec![
@@ -140,7 +140,7 @@ impl Property for C08 {
                 name: "all-levels-small",
                 cases: tier.pick(1_500, 30_000),
                 strat: Arc::new(|| {
-                    (config_any(CfgParams { max_files: 5, sizes: size_small(), comp: comp_any(true), sign_prob: 0.1, file_kinds: true, force_large_prob: 0.1, rich_meta: true }), proptest::collection::vec(op_cheap(), 0..3))
+                    (config_any_reuse(CfgParams { max_files: 5, sizes: size_small(), comp: comp_any(true), sign_prob: 0.1, file_kinds: true, force_large_prob: 0.1, rich_meta: true }), proptest::collection::vec(op_cheap(), 0..3))
                         .prop_map(|(mut cfg, ops)| {
                             if cfg.signer == Some(1) {
                                 cfg.signer = Some(2);
@@ -163,6 +163,9 @@ impl Property for C08 {
         }
         if !case.ops.is_empty() {
             o.label("with-ops");
+        }
+        if cfg.reuse_source {
+            o.label("one-source-path-rewritten");
         }
         if !cfg.files.is_empty() && cfg.compression.kind != 1 {
             o.nontrivial_key(fnv1a(serde_json::to_string(case).unwrap_or_default().as_bytes()));
